@@ -384,6 +384,33 @@ func workerPoolRule(P *Program, R *Report) {
 			return ok && calleeIs(c, "(*sync.WaitGroup).Wait")
 		}})
 		for _, g := range gos {
+			// at least one worker whatever the machine: spawned in a loop whose bound is NumCPU()/GOMAXPROCS(0) plus a
+			// non-negative constant, or a positive constant (NumCPU()-1 is zero on a one-CPU machine: Wait returns at once
+			// and no job runs)
+			if l := innermostLoopOf(g.Block()); l != nil {
+				var bound ssa.Value
+				for _, bb := range append([]*ssa.BasicBlock{l.Header}, l.Latch...) {
+					for _, ins := range bb.Instrs {
+						if b, isB := ins.(*ssa.BinOp); isB && b.Op == token.LSS {
+							bound = b.Y
+						}
+					}
+				}
+				okCount, countD := false, "?"
+				if bound != nil {
+					if a, isA := affineOf(bound); isA {
+						countD = a.String()
+						if a.isConst() {
+							okCount = a.C >= 1
+						} else if len(a.S) == 1 && a.C >= 0 {
+							for sym, k := range a.S {
+								okCount = k >= 1 && (sym == "call:runtime.NumCPU()" || sym == "call:runtime.GOMAXPROCS(0)")
+							}
+						}
+					}
+				}
+				R.decide(rule, key+":workers>=1", "at least one worker goroutine is started whatever the machine", okCount, "count = "+countD, P.Pos(g.Pos()))
+			}
 			mc, ok := g.Call.Value.(*ssa.MakeClosure)
 			if !ok {
 				R.und(rule, key+":worker", "worker body is a closure", "", P.Pos(g.Pos()))
